@@ -52,6 +52,8 @@ NOSEG = "--no-default-features --features unicode-normalization,unicode-casefold
 
 
 def U(name, module, harness, props, kind, functions, desc, bound=None, expect="pass", timeout=900, cost=1, engine="kani", **kw):
+    if name.startswith("c16-"):
+        kw.setdefault("core", True)
     d = dict(name=name, module=module, harness=harness, props=props, kind=kind, functions=functions, desc=desc,
              bound=bound, expect=expect, timeout=timeout, cost=cost, engine=engine)
     d.update(kw)
